@@ -77,6 +77,11 @@ pub fn js(s: &str) -> String {
     out
 }
 
+/// JSON string literal of a path or file name (lossy).
+pub fn js_os<S: AsRef<std::ffi::OsStr>>(s: S) -> String {
+    js(&s.as_ref().to_string_lossy())
+}
+
 /// JSON array of string literals, sorted (for hash sets).
 pub fn js_set<I: IntoIterator<Item = String>>(items: I) -> String {
     let mut v: Vec<String> = items.into_iter().collect();
